@@ -62,6 +62,12 @@ struct Case {
             if (L.cells[i].name == n) r = (int)i;
         return r;
     }
+    // an outside Cell object is built under a unique name and renamed afterwards when it is to carry the name of a library cell
+    std::map<std::string, std::string> twin;
+    std::string wname(const std::string& n) const {
+        auto it = twin.find(n);
+        return it == twin.end() ? n : it->second;
+    }
     int out_index(const std::string& n) const {
         for (size_t i = 0; i < outside.size(); i++)
             if (outside[i].name == n) return (int)i;
@@ -107,7 +113,7 @@ struct Ser {
         for (auto& q : p) { i(q.first); i(q.second); }
     }
     void cell(const Case& C, const ACell& c) {
-        w(hexstr(c.name));
+        w(hexstr(C.wname(c.name)));
         u(c.polys.size());
         for (auto& p : c.polys) {
             u(p.layer); u(p.type); pts(p.pts); rep(p.rep); props(p.props);
@@ -125,7 +131,7 @@ struct Ser {
         }
         u(c.refs.size());
         for (auto& r : c.refs) {
-            w(hexstr(r.target));
+            w(hexstr(r.how == 3 ? C.wname(r.target) : r.target));
             if (r.how == 0) { w("I"); u((uint64_t)C.lib_index(r.target)); }
             else if (r.how == 3) { w("O"); u((uint64_t)C.out_index(r.target)); }
             else w("N");
@@ -323,6 +329,58 @@ static void prepare(Case& C, Gen& gen, Rng& g, unsigned variant, Out* out) {
         });
         if (out) out->count("class:off-grid");
     }
+    // strings longer than the 28 bytes S_MAX_STRING_LENGTH starts from: cell names, label texts, property names and values
+    if (g.chance(30)) {
+        auto longer = [&](std::string& t) { t += gen.nstring(20, 40); };
+        auto props_longer = [&](AProps& ps) {
+            for (auto& p : ps) {
+                if (p.name == "S_GDS_PROPERTY" || oas_standard_name(p.name) || !g.chance(30)) continue;
+                if (g.coin()) longer(p.name);
+                else
+                    for (auto& v : p.v)
+                        if (v.t == 3) { longer(v.s); break; }
+            }
+        };
+        props_longer(L.props);
+        for (auto& c : L.cells) {
+            if (g.chance(20)) {
+                std::string old = c.name, nn = c.name + gen.nstring(20, 40);
+                bool clash = false;
+                for (auto& d : L.cells) clash = clash || d.name == nn;
+                if (!clash) {
+                    for (auto& d : L.cells)
+                        for (auto& r : d.refs)
+                            if (r.target == old && r.how <= 1) r.target = nn;
+                    c.name = nn;
+                }
+            }
+            props_longer(c.props);
+            for (auto& p : c.polys) props_longer(p.props);
+            for (auto& p : c.paths) props_longer(p.props);
+            for (auto& p : c.refs) props_longer(p.props);
+            for (auto& t : c.labels) {
+                if (g.chance(30)) longer(t.text);
+                props_longer(t.props);
+            }
+        }
+        if (out) out->count("class:long-strings");
+    }
+    // a Cell object outside the library that carries the NAME of a library cell, with a Cell-typed reference to it
+    // (Library::top_level keys its map by name).  Not with the BOUNDING_BOX flag: the GeometryInfo cache is keyed by name too
+    if (!C.f_bbox && !C.outside.empty() && L.cells.size() >= 2 && g.chance(12)) {
+        size_t j = g.below(C.outside.size()), i = g.below(L.cells.size());
+        size_t k = (i + 1 + g.below(L.cells.size() - 1)) % L.cells.size();
+        C.twin[C.outside[j].name] = L.cells[i].name;
+        ARef r;
+        r.how = 3;
+        r.target = C.outside[j].name;
+        r.x = gen.coord();
+        r.y = gen.coord();
+        r.quarter = true;
+        r.k = (int)g.range(-4, 4);
+        L.cells[k].refs.push_back(r);
+        if (out) out->count("class:outside-twin-name");
+    }
     // user properties with the writer's reserved names
     if (g.chance(30)) insert_reserved(gen, g, L.props, false, out);
     if (g.chance(6)) {   // the library's list made ONLY of reserved names (remove_property all-match, fixed by b762f5e)
@@ -509,7 +567,7 @@ static void truth(const Case& C, const std::vector<uint8_t>& file, Truth& t) {
         std::set<std::string> referenced, referenced_by_pointer;
         for (auto& c : L.cells)
             for (auto& r : c.refs) {
-                referenced.insert(r.target);
+                referenced.insert(r.how == 3 ? C.wname(r.target) : r.target);
                 if (r.how == 0) referenced_by_pointer.insert(r.target);
             }
         std::multiset<std::string> want, want_ptr_only, got(top_listed.begin(), top_listed.end());
@@ -627,6 +685,14 @@ static void run_case(Out& out, uint64_t ls, unsigned variant) {
         build_library(all, b);
         b.lib.unit = L.unit;
         b.lib.cell_array.count = L.cells.size();
+        for (size_t j = 0; j < C.outside.size(); j++) {
+            Cell* oc = b.lib.cell_array.items[L.cells.size() + j];
+            std::string fin = C.wname(C.outside[j].name);
+            if (fin != oc->name) {
+                free_allocation(oc->name);
+                oc->name = copy_string(fin.c_str(), NULL);
+            }
+        }
         for (uint64_t ci = 0; ci < b.lib.cell_array.count + C.outside.size(); ci++) {
             Cell* c = b.lib.cell_array.items[ci];
             for (uint64_t k = 0; k < c->flexpath_array.count; k++) c->flexpath_array[k]->simple_path = true;
